@@ -562,14 +562,13 @@ def report(ctx, scenarios, traces, owners, v, classify=classify_c09):
         sc = scenarios[tid - 1]
         tr, owner = traces[tid - 1], owners[tid - 1]
         found = sorted(set(divs.get(tid, [])))
-        if not found:
-            i = v.rejected[tid]["reached"]
-            e = tr["ev"][i - 1] if 1 <= i <= len(tr["ev"]) else {}
-            if e.get("op") == "copy":
-                ctx.violation(f"{sc_label(sc)}: optuna.copy_study from inmemory to {e['to']} does not reproduce every "
-                              f"field: {_first_copy_diff(e)}", {"scenario": strip_sc(sc), "kind": "copy", "to": e["to"]})
-                n_viol += 1
-                continue
+        i = v.rejected[tid]["reached"]
+        e = tr["ev"][i - 1] if 1 <= i <= len(tr["ev"]) else {}
+        if e.get("op") == "copy":      # no action consumed the copy event: source and copy differ
+            ctx.violation(f"{sc_label(sc)}: optuna.copy_study from inmemory to {e['to']} does not reproduce every "
+                          f"field: {_first_copy_diff(e)}", {"scenario": strip_sc(sc), "kind": "copy", "to": e["to"]})
+            n_viol += 1
+        elif not found:
             raise tlc.MachineryError(f"trace {tid} ({sc['id']}) rejected at event {i} {e} without a divergence")
         for (l, run_ix, first_ix) in found:
             conf, ref = sc["confs"][run_ix - 1], sc["confs"][first_ix - 1]
